@@ -20,10 +20,32 @@ pub enum Case {
 }
 
 fn check_htyp(h: u8) -> CheckResult {
+    // the byte must decode the same way whatever the ECU field holds, with or without a storage header, and under any
+    // filter configuration that keeps the message
+    let fillings: [(&[u8; 4], &str, bool); 4] = [(b"EC\0\0", "EC", true), (b"\0\0\0\0", "", true), (b"ECU1", "ECU1", true), (b"\xffAB\0", "", false)];
+    for (ecu_bytes, ecu_text, canonical) in fillings {
+        for storage in [false, true] {
+            for fidx in 0..8u8 {
+                check_htyp_in(h, ecu_bytes, ecu_text, canonical, storage, fidx)?;
+            }
+        }
+        if h & WEID == 0 {
+            break; // the filling is not on the wire
+        }
+    }
+    Ok(Pass::new(true).class("htyp"))
+}
+
+fn check_htyp_in(h: u8, ecu_bytes: &[u8; 4], ecu_text: &str, canonical: bool, storage: bool, fidx: u8) -> Result<(), Violation> {
     // minimal message with the optional fields HTYP announces
-    let mut b = vec![h, 0x5a, 0, 0];
+    let mut b = vec![];
+    if storage {
+        b.extend_from_slice(b"DLT\x01\x01\x02\x03\x04\x05\x06\x07\x08STO\0");
+    }
+    let start = b.len();
+    b.extend_from_slice(&[h, 0x5a, 0, 0]);
     if h & WEID != 0 {
-        b.extend_from_slice(b"EC\0\0");
+        b.extend_from_slice(ecu_bytes);
     }
     if h & WSID != 0 {
         b.extend_from_slice(&0x0102_0304u32.to_be_bytes());
@@ -36,11 +58,15 @@ fn check_htyp(h: u8) -> CheckResult {
         b.extend_from_slice(b"APP\0CTX\0");
     }
     b.extend_from_slice(&[9, 8, 7, 6]);
-    let len = b.len() as u16;
-    b[2..4].copy_from_slice(&len.to_be_bytes());
-    let r = guard(|| dlt_message(&b, None, false).map(|(rest, pm)| (rest.len(), pm))).map_err(|p| Violation::from_panic(&format!("dlt_message on {}", hex_short(&b)), &p))?;
-    let Ok((0, ParsedMessage::Item(m))) = r else {
-        return Err(viol!("htyp:parse", "minimal message with HTYP {:#04x} did not parse: {}", h, short_dbg(&r)));
+    let len = (b.len() - start) as u16;
+    b[start + 2..start + 4].copy_from_slice(&len.to_be_bytes());
+    let filter = crate::oracle::filter_by_index(fidx);
+    let ctx = format!("HTYP {:#04x}, ECU field {}, storage header {}, filter #{}", h, hex_short(ecu_bytes), storage, fidx);
+    let r = guard(|| dlt_message(&b, filter.as_ref(), storage).map(|(rest, pm)| (rest.len(), pm))).map_err(|p| Violation::from_panic(&format!("dlt_message on {}", hex_short(&b)), &p))?;
+    let m = match r {
+        Ok((0, ParsedMessage::Item(m))) => m,
+        Ok((0, ParsedMessage::FilteredOut(_))) if filter.is_some() => return Ok(()),
+        other => return Err(viol!("htyp:parse", "minimal message ({}) did not parse: {}", ctx, short_dbg(&other))),
     };
     let hd = &m.header;
     let ok = hd.version == h >> 5
@@ -49,23 +75,26 @@ fn check_htyp(h: u8) -> CheckResult {
         && hd.ecu_id.is_some() == (h & WEID != 0)
         && hd.session_id.is_some() == (h & WSID != 0)
         && hd.timestamp.is_some() == (h & WTMS != 0)
-        && hd.ecu_id.as_deref().map_or(true, |e| e == "EC")
+        && hd.ecu_id.as_deref().map_or(true, |e| e == ecu_text)
         && hd.session_id.map_or(true, |s| s == 0x0102_0304)
         && hd.timestamp.map_or(true, |s| s == 0x0a0b_0c0d)
         && hd.message_counter == 0x5a
         && m.extended_header.is_some() == (h & UEH != 0);
     if !ok {
-        return Err(viol!("htyp:fields", "HTYP {:#04x} ({:#010b}) decoded to {:?}", h, h, hd));
+        return Err(viol!("htyp:fields", "{} ({:#010b}) decoded to {:?}", ctx, h, hd));
     }
     let back = guard(|| hd.header_type_byte()).map_err(|p| Violation::from_panic("header_type_byte", &p))?;
     if back != h {
-        return Err(viol!("htyp:reencode", "HTYP {:#04x} re-encodes to {:#04x}", h, back));
+        return Err(viol!("htyp:reencode", "{} re-encodes to {:#04x}", ctx, back));
     }
     let bytes = guard(|| m.as_bytes()).map_err(|p| Violation::from_panic("as_bytes", &p))?;
-    if bytes != b {
-        return Err(viol!("htyp:reserialise", "message with HTYP {:#04x} re-serialises to {} instead of {}", h, hex_short(&bytes), hex_short(&b)));
+    if bytes.get(start) != Some(&h) {
+        return Err(viol!("htyp:reserialise", "{}: the re-serialised message carries header type {:?}", ctx, bytes.get(start)));
     }
-    Ok(Pass::new(true).class("htyp"))
+    if canonical && bytes != b {
+        return Err(viol!("htyp:reserialise", "message ({}) re-serialises to {} instead of {}", ctx, hex_short(&bytes), hex_short(&b)));
+    }
+    Ok(())
 }
 
 fn check_msin(b: u8) -> CheckResult {
@@ -154,7 +183,7 @@ pub fn check(c: &Case) -> CheckResult {
 
 pub fn run(run: &Run) {
     run.rule(
-        "exhaustive enumeration: all 256 HTYP bytes (each in a minimal message with the optional fields it announces, parsed and re-serialised), all \
+        "exhaustive enumeration: all 256 HTYP bytes (each in a minimal message with the optional fields it announces, parsed and re-serialised; 4 fillings of the ECU field incl. empty and non-UTF-8 x with/without storage header x no filter and 7 filter configurations), all \
          256 MSIN bytes (MessageType::try_from vs the MSTP/MTIN table, re-encoding, through a message with extended header), and type-info words: \
          quick = all 2^18 values of bits 0-17 x 1024 patterns of bits 18-31 (268 M words), thorough = all 2^32 words; acceptance must equal the \
          reference predicate (exactly one of BOOL/SINT/UINT/FLOA/STRG/RAWD among bits 4-10, TYLE 1..5 for integers, 3..4 for fixed point and float), \
